@@ -63,11 +63,18 @@ def new_game(case):
     install_sampler(fake)
     g = cls(**cfg_kwargs(case))
     g._cv_fake = fake
+    g._cv_peek = bool(case.get("peek"))
     return g
 
 
 def observe(g):
     n = g.num_players
+    if getattr(g, "_cv_peek", False) and not g.is_complete:
+        try:
+            g.pot.get_rake_per_player(g.should_rake_pot())     # read-only on correct code
+            g.pot.get_max_total_rake() if hasattr(g.pot, "get_max_total_rake") else None
+        except Exception:
+            pass
 
     def attempt(fn):
         try:
@@ -183,7 +190,7 @@ def model_result(r):
 
 # ---------------------------------------------------------------- configuration / play-out generators
 
-def gen_cfg(rng, scope="mixed"):
+def gen_cfg(rng, scope="mixed", huge=False):
     from card_utils.deck import cards as CARDS
     game = rng.choice(["NLHE", "PLO"])
     k = 2 if game == "NLHE" else 4
@@ -234,9 +241,20 @@ def gen_cfg(rng, scope="mixed"):
     raked = rng.random() < 0.4
     f = rng.choice([0.05, 0.1, 0.3, 0.5, 0.7, 1.0, 0.29]) if raked else 0.0
     cap = rng.choice([0, 1, 3, 10, 10**6]) if raked else 0
-    return {"game": game, "n": n, "deck": deck, "hands": hands, "stacks": stacks, "board": board, "ante": ante,
-            "blinds": blinds, "runouts": rng.choice([1, 1, 2, 3]), "f": core.ratj(f), "cap": cap,
-            "samp": [rng.randrange(0, 60), rng.choice([0, 1, 5, 7])]}
+    cfg = {"game": game, "n": n, "deck": deck, "hands": hands, "stacks": stacks, "board": board, "ante": ante,
+           "blinds": blinds, "runouts": rng.choice([1, 1, 2, 3]), "f": core.ratj(f), "cap": cap,
+           "samp": [rng.randrange(0, 60), rng.choice([0, 1, 5, 7])]}
+    if rng.random() < 0.25:
+        cfg["peek"] = True      # a client that previews the rake on the live pot between actions (a read-only query)
+    if huge and not raked and rng.random() < 0.06:
+        # chip counts beyond 2^53: the integer side of the engine (stacks, contributions, what is owed, the legal bet sizes)
+        # must stay exact; payouts and pnl are floats by design and are NOT judged on such tables (C04 only)
+        K = 3 * 10 ** 15 + 1
+        cfg["stacks"] = [x * K for x in stacks]
+        cfg["ante"] = ante * K
+        cfg["blinds"] = [b * K for b in blinds] if blinds is not None else None
+        cfg["huge"] = True
+    return cfg
 
 
 def legal_options(g):
